@@ -201,3 +201,16 @@ Definition body_calls_call_ok (pfnames : list str) (lib : list tpl) (name : str)
   match classify_pf pfnames (canon_pf pfnames name) with PfNone => true | _ => false end &&
   forallb plain args &&
   match find_tpl lib name with Some t => body_calls_ok pfnames lib name (t_body t) | None => true end.
+
+(* both at once: calls in the arguments (expanded in the caller's frame) and calls in the body (expanded after the
+   substitution, in the new frame) *)
+Definition two_level_result (lib : list tpl) (name : str) (args : list enc) : enc :=
+  match find_tpl lib name with
+  | None => chars (missing_tpl name)
+  | Some t => add_newline (page_result lib (body_subst (bind_nested lib args 1 []) (t_body t)))
+  end.
+Definition two_level_ok (pfnames : list str) (lib : list tpl) (name : str) (args : list enc) : bool :=
+  str_eqb (codes (strip_i (chars name))) name && negb (existsb (N.eqb 58) name) &&
+  match classify_pf pfnames (canon_pf pfnames name) with PfNone => true | _ => false end &&
+  forallb (nested_arg_ok pfnames lib name) args &&
+  match find_tpl lib name with Some t => body_calls_ok pfnames lib name (t_body t) | None => true end.
